@@ -440,6 +440,122 @@ Section Parse.
     end.
 End Parse.
 
+(* ---------- dns.asyncquery primitives ---------- *)
+(* With an async backend the *socket* waits: recv / recvfrom / sendall / sendto take a relative
+   timeout = _timeout(expiration) computed when the call starts, pass over would-blocks by
+   themselves and raise dns.exception.Timeout.  These are the scripted backend sockets of the
+   harness plus the loops of dns/asyncquery.py; Proofs/NetAsync.v shows they compute exactly what
+   the dns.query loops above compute, which is why the composite functions share one model. *)
+
+(* _timeout(expiration) at clock `now`, as the absolute deadline of the backend call *)
+Definition call_deadline (now : Z) (expiration : option Z) : option Z :=
+  match expiration with
+  | None => None
+  | Some e => Some (now + Z.max (e - now) 0)
+  end.
+
+(* StreamSocket.recv(size, timeout) *)
+Fixpoint arecv (dl : option Z) (evs : list rxev) (stream : list Z) (size : nat) (now : Z)
+  : res (list Z * list rxev * list Z * Z) :=
+  match evs with
+  | [] => Ok (firstn size stream, [], skipn size stream, now)
+  | RAvail k :: r =>
+      let n := firstn (Nat.min k size) stream in Ok (n, r, skipn (length n) stream, now)
+  | RBlock dt :: r => do now' <- wait_for now dl dt; arecv dl r stream size now'
+  | REof :: r => Ok ([], r, stream, now)
+  end.
+
+(* _read_exactly(sock, count, expiration); fuel bounds the number of recv calls *)
+Fixpoint aread_exactly (fuel : nat) (expiration : option Z) (evs : list rxev) (stream : list Z)
+         (count : nat) (s : list Z) (now : Z) : res (list Z * rsock) :=
+  match count with
+  | O => Ok (s, {| rs_stream := stream; rs_evs := evs; rs_now := now |})
+  | S _ =>
+      match fuel with
+      | O => Internal niOther
+      | S f =>
+          match arecv (call_deadline now expiration) evs stream count now with
+          | Ok (n, evs', stream', now') =>
+              match n with
+              | [] => Lib neEOF
+              | _ => aread_exactly f expiration evs' stream' (count - length n) (s ++ n) now'
+              end
+          | Lib e => Lib e
+          | Internal e => Internal e
+          end
+      end
+  end.
+
+(* StreamSocket.sendall(what, timeout) *)
+Fixpoint asendall (dl : option Z) (evs : list txev) (data sent : list Z) (now : Z)
+  : res (list Z * list txev * Z) :=
+  match data with
+  | [] => Ok (sent, evs, now)
+  | _ :: _ =>
+      match evs with
+      | [] => Ok (sent ++ data, [], now)
+      | WAccept k :: r => asendall dl r (skipn k data) (sent ++ firstn k data) now
+      | WBlock dt :: r => do now' <- wait_for now dl dt; asendall dl r data sent now'
+      end
+  end.
+
+(* DatagramSocket.recvfrom(size, timeout): (datagram, events consumed) *)
+Fixpoint arecvfrom (dl : option Z) (evs : list uev) (now : Z) (i : nat)
+  : nat * res (list Z * addr * list uev * Z) :=
+  match evs with
+  | [] =>
+      match wait_for now dl None with
+      | Ok _ => (i, Internal niScriptEnd)
+      | Lib e => (i, Lib e)
+      | Internal e => (i, Internal e)
+      end
+  | UData wire from :: r => (S i, Ok (wire, from, r, now))
+  | UBlock dt :: r =>
+      match wait_for now dl dt with
+      | Ok now' => arecvfrom dl r now' (S i)
+      | Lib e => (S i, Lib e)
+      | Internal e => (S i, Internal e)
+      end
+  end.
+
+Section AsyncUdp.
+  Variable parse : list Z -> pabs.
+
+  (* dns.asyncquery.receive_udp: one recvfrom per iteration; fuel bounds the iterations *)
+  Fixpoint areceive_udp (fuel : nat) (af : Z) (dest : option addr) (expiration : option Z) (o : uopts)
+           (query : option msg) (evs : list uev) (now : Z) (i : nat) : ures :=
+    match fuel with
+    | O => (i, Internal niOther)
+    | S f =>
+        match arecvfrom (call_deadline now expiration) evs now i with
+        | (j, Lib e) => (j, Lib e)
+        | (j, Internal e) => (j, Internal e)
+        | (j, Ok (wire, from, r, now')) =>
+            match matches_destination af from dest (o_ignore_unexpected o) with
+            | Lib e => (j, Lib e)
+            | Internal e => (j, Internal e)
+            | Ok false => areceive_udp f af dest expiration o query r now' j
+            | Ok true =>
+                match from_wire_out (parse wire) (o_ignore_trailing o) (o_raise_on_truncation o) with
+                | PTrunc m =>
+                    if o_ignore_errors o
+                       && match query with Some q => negb (is_response q m) | None => false end
+                    then areceive_udp f af dest expiration o query r now' j
+                    else (j, Lib neTruncated)
+                | PErr e =>
+                    if o_ignore_errors o then areceive_udp f af dest expiration o query r now' j
+                    else (j, err_res e)
+                | POk m =>
+                    if o_ignore_errors o
+                       && match query with Some q => negb (is_response q m) | None => false end
+                    then areceive_udp f af dest expiration o query r now' j
+                    else (j, Ok (m, wire, now', from, r))
+                end
+            end
+        end
+    end.
+End AsyncUdp.
+
 (* ---------- harness interface ---------- *)
 Definition eBad := 999.
 
@@ -649,9 +765,10 @@ Definition run (c : obs) : obs :=
             dec_list dec_tab_entry tab, dec_list dec_uev evs with
       | Some d, Some exp, Some os, Some q, Some tab, Some evs =>
           L (map (fun o =>
-                    let r := receive_udp (lookup tab) af d exp o q evs now 0%nat in
-                    L [enc_ures (match d with Some _ => true | None => false end) r;
-                       enc_ures false r]) os)
+                    L [enc_ures (match d with Some _ => true | None => false end)
+                                (receive_udp (lookup tab) af d exp o q evs now 0%nat);
+                       enc_ures false
+                                (areceive_udp (lookup tab) (S (length evs)) af d exp o q evs now 0%nat)]) os)
       | _, _, _, _, _, _ => E eBad
       end
   (* udp, one script under a list of option combinations *)
@@ -666,24 +783,29 @@ Definition run (c : obs) : obs :=
   | L [I 6; stream; L evs; exp; I now; L counts] =>
       match dec_stream stream, dec_list dec_rev evs, dec_oz exp, dec_list dec_z counts with
       | Some s, Some evs, Some exp, Some counts =>
-          both (L ((fix go (cs : list Z) (sk : rsock) : list obs :=
+          let reads := fun (rd : rsock -> nat -> res (list Z * rsock)) =>
+            L ((fix go (cs : list Z) (sk : rsock) : list obs :=
                 match cs with
                 | [] => [L [B (rs_stream sk); I (rs_now sk)]]
                 | cnt :: cs' =>
-                    match net_read exp sk (Z.to_nat cnt) with
+                    match rd sk (Z.to_nat cnt) with
                     | Ok (b, sk') => B b :: go cs' sk'
                     | Lib e => [E e]
                     | Internal e => [E e]
                     end
-                end) counts {| rs_stream := s; rs_evs := evs; rs_now := now |}))
+                end) counts {| rs_stream := s; rs_evs := evs; rs_now := now |}) in
+          L [reads (net_read exp);
+             reads (fun sk cnt => aread_exactly (length (rs_evs sk) + 2) exp (rs_evs sk) (rs_stream sk)
+                                                cnt [] (rs_now sk))]
       | _, _, _, _ => E eBad
       end
   (* _net_write *)
   | L [I 7; data; L evs; exp; I now] =>
       match dec_stream data, dec_list dec_wev evs, dec_oz exp with
       | Some d, Some evs, Some exp =>
-          both (enc_res (fun st => let '(sent, _, t) := st in L [B sent; I t])
-                  (net_write_loop exp evs d [] now))
+          let enc := enc_res (fun st : list Z * list txev * Z => let '(sent, _, t) := st in L [B sent; I t]) in
+          L [enc (net_write_loop exp evs d [] now);
+             enc (asendall (call_deadline now exp) evs d [] now)]
       | _, _, _ => E eBad
       end
   (* send_tcp of several messages, then receive_tcp as many times on what was put on the wire;
